@@ -438,7 +438,7 @@ func main() {
 		return
 	}
 	vlib.Main("C11", "exploration", 10*time.Minute, func(r *vlib.Run) {
-		r.Rule("rounds; each round = fresh cache directory shared by P processes (3-8) x G goroutines (4-8) released together, each doing N operations on 24 identical-content ids (sizes 0..1MiB, half of the Puts from a slow source) and 8 differing-content ids (64B..200KiB): 50% Put/PutBytes, 50% GetBytes/GetFile, with seeded delays at the cache.* hook points. Evaluations = operations executed; distinct non-trivial = lookups that overlapped in time with a Put of the same id in another goroutine or process (counted from the merged op log), plus rounds. One in twelve Puts of a differing-content id uses a source that fails half-way through the copy pass (fresh content), and before the final sweep one such failing Put is made on every stored differing-content id: writers that finish with an error must not hide what was stored. Four further identical-content ids (300 KiB - 1 MiB) have their output file removed now and then while their index entry stays (what Trim does to an entry kept fresh through Get only) and are stored again concurrently: their lookups may miss, but what they return must be exact.")
+		r.Rule("rounds; each round = fresh cache directory shared by P processes (3-8) x G goroutines (4-8) released together, each doing N operations on 24 identical-content ids (sizes 0..1MiB, half of the Puts from a slow source) and 8 differing-content ids (64B..200KiB): 50% Put/PutBytes, 50% GetBytes/GetFile, with seeded delays at the cache.* hook points. Evaluations = operations executed; distinct non-trivial = lookups that overlapped in time with a Put of the same id in another goroutine or process (counted from the merged op log), plus rounds. One in twelve Puts of a differing-content id uses a source that fails half-way through the copy pass (fresh content), and before the final sweep one such failing Put is made on every stored differing-content id: writers that finish with an error must not hide what was stored. Four further identical-content ids (300 KiB - 1 MiB) have their output file removed now and then while their index entry stays (what Trim does to an entry kept fresh through Get only) and are stored again concurrently: their lookups may miss, but what they return must be exact; in the final sweep each of them is stored once more (two after another removal of the output) and must then be readable through GetBytes and GetFile.")
 		r.Assume("Trim is not part of this workload; flag 'Put completed' is set after Put returned and sampled before the lookup is invoked (client boundary)")
 		base := vlib.Scratch()
 		rounds := r.Pick(12, 90)
@@ -603,6 +603,31 @@ func main() {
 					r.Violation(fmt.Sprintf("final-sweep round=%d id=%d seed=%d", round, k, r.Seed), bad, ccase{"final-sweep", round, P, G, bad})
 				}
 				r.Count("final_sweep_ids", 1)
+			}
+			// the T ids: whatever state the round left them in (entry with or without its output file - for two
+			// of them the output is removed once more here), storing the content again makes the id readable
+			for tk := 0; tk < nT; tk++ {
+				want := contentT(tk)
+				if tk%2 == 0 {
+					h := sha256.Sum256(want)
+					os.Remove(filepath.Join(dir, fmt.Sprintf("%02x", h[0]), fmt.Sprintf("%x-d", h)))
+				}
+				bad := ""
+				if err := c.PutBytes(idT(tk), want); err != nil {
+					bad = fmt.Sprintf("storing id T%d again after all writers finished failed: %v", tk, err)
+				} else if data, _, err := c.GetBytes(idT(tk)); err != nil {
+					bad = fmt.Sprintf("id T%d was stored again (Put returned nil) after its output file had been removed, but it is not readable: GetBytes: %v", tk, err)
+				} else if !bytes.Equal(data, want) {
+					bad = fmt.Sprintf("id T%d stored again: GetBytes returned %d foreign bytes", tk, len(data))
+				} else if file, ent, err := c.GetFile(idT(tk)); err != nil {
+					bad = fmt.Sprintf("id T%d stored again: GetFile: %v", tk, err)
+				} else if fb, _ := os.ReadFile(file); !bytes.Equal(fb, want) || ent.Size != int64(len(want)) {
+					bad = fmt.Sprintf("id T%d stored again: the file GetFile names holds %d bytes, entry size %d, content %d bytes", tk, len(fb), ent.Size, len(want))
+				}
+				if bad != "" {
+					r.Violation(fmt.Sprintf("restored-id-unreadable round=%d id=T%d seed=%d", round, tk, r.Seed), bad, ccase{"restored-id-unreadable", round, P, G, bad})
+				}
+				r.Count("ids_stored_again_after_output_removal_in_the_final_sweep", 1)
 			}
 			flags.Close()
 			os.RemoveAll(dir)
